@@ -487,6 +487,22 @@ func (u *universe) concrete(r *rand.Rand, samples []uSample, types [][2]string) 
 	if len(p.Mapping) > 1 && r.Intn(2) == 0 {
 		r.Shuffle(len(p.Mapping), func(i, j int) { p.Mapping[i], p.Mapping[j] = p.Mapping[j], p.Mapping[i] })
 	}
+	// a third of the profiles use ids with gaps: distinct values anywhere in [1, 2n+2], so a small
+	// profile can use ids that lie inside a bigger profile's dense range
+	if r.Intn(3) == 0 {
+		pl := r.Perm(2*len(p.Location) + 2)
+		for i, l := range p.Location {
+			l.ID = uint64(pl[i] + 1)
+		}
+		pf := r.Perm(2*len(p.Function) + 2)
+		for i, f := range p.Function {
+			f.ID = uint64(pf[i] + 1)
+		}
+		pm := r.Perm(2*len(p.Mapping) + 2)
+		for i, m := range p.Mapping {
+			m.ID = uint64(pm[i] + 1)
+		}
+	}
 	return p
 }
 
